@@ -193,82 +193,82 @@ PROPS = {
 _V2NOTE = "Trusts: the harness' own generators/oracles, the package tokenizer for white-box token sequences (premise checks and spans), Go's runtime. Corpus files are read from /repo/v2/assets at run time; the build compiles /repo's working tree."
 MANIFEST_TEXT = {
     "C01": {
-        "level": "Generated-input search with an exact constructive oracle: hundreds (quick) to thousands (thorough) of plantings of 1-4 corpus documents in verified out-of-vocabulary context across thresholds 0.7-1.0, full/small corpora and user-added documents, plus an enumeration of every embedded document (x every menu threshold in thorough). Each planted copy must be reported with Confidence exactly 1.0, exact token span and lines. Bounded exploration.",
+        "level": "Generated-input search with an exact constructive oracle: hundreds (quick) to thousands (thorough) of plantings of 1-4 corpus documents in verified out-of-vocabulary context across thresholds 0.7-1.0, full/small corpora and user-added documents, plus an enumeration of every embedded document (x every menu threshold in thorough). Every embedded document is also planted twice, and user-added documents get token-identical twins in other categories (a copy is then a copy of both). Each planted copy must be reported with Confidence exactly 1.0, exact token span and lines. Bounded exploration.",
         "note": _V2NOTE + " Layouts where two copies share a physical line are excluded by construction (known finding F18).",
         "technique": "property-based testing (rapid) with constructive oracle + exhaustive enumeration over corpus documents",
     },
     "C02": {
-        "level": "Generated-input search against an independent reference: every reported match is re-scored with a separately written banded word-level Levenshtein (itself self-tested against the quadratic algorithm); the bound Confidence <= 1 - L/|K| is compared exactly and is tight in ~98% of matches, so off-by-one errors in counting, trimming or the divisor are visible. Bounded exploration.",
+        "level": "Generated-input search against an independent reference: every reported match is re-scored with a separately written banded word-level Levenshtein (itself self-tested against the quadratic algorithm); the bound Confidence <= 1 - L/|K| is compared exactly and is tight in ~98% of matches, so off-by-one errors in counting, trimming or the divisor are visible; a quarter of the small-corpus cases run with scoring traced (tracing must not change the score). A second part checks line attribution against an oracle that only looks at the physical lines (found F23). Bounded exploration.",
         "note": _V2NOTE,
         "technique": "property-based testing (rapid) with a reference-implementation oracle (independent Levenshtein)",
     },
     "C03": {
-        "level": "Generated-input search with a validity predicate: the statement's well-formedness conditions are evaluated on every result for arbitrary/hostile inputs, thresholds across (0,1] and corpora with awkward names. Bounded exploration.",
+        "level": "Generated-input search with a validity predicate: the statement's well-formedness conditions are evaluated on every result for arbitrary/hostile inputs, thresholds across (0,1] and corpora with awkward names, plus pairs of large synthetic documents whose confidences differ by less than 1e-6 (ordering) and hyphen runs at line ends (line bounds). Bounded exploration.",
         "note": _V2NOTE,
         "technique": "property-based testing (rapid) with a validity-predicate oracle",
     },
     "C04": {
-        "level": "Generated call histories (model-based: reference results from a pristine classifier), corpus permutations/supersets, caller-buffer snapshots and repeated/cross-process matching of tie-prone inputs, all with the oracle 'bit-identical ordered Results'. Found the tie-order defect F1 (fixed). Bounded exploration; separate processes vary Go's map seeds.",
+        "level": "Generated call histories (model-based: reference results from a pristine classifier), corpus permutations/supersets, caller-buffer snapshots, repeated/cross-process matching of tie-prone inputs, self-repeating documents and corpora whose documents contain each other, all with the oracle 'bit-identical ordered Results'. Found the tie-order defect F1 (fixed). Bounded exploration; separate processes vary Go's map seeds.",
         "note": _V2NOTE + " Cross-process comparison assumes the deterministic batch is identical in every process (it is a pure function of the tree).",
         "technique": "stateful property-based testing against a pristine reference + metamorphic corpus permutation + cross-process digest comparison",
     },
     "C05": {
-        "level": "Metamorphic property testing at two levels (token stream and Match results): thousands of compositions of presentation transformations at drawn positions of generated license-bearing inputs, with the hyphen exemption applied per line. Bounded exploration.",
+        "level": "Metamorphic property testing at two levels (token stream and Match results): thousands of compositions of presentation transformations at drawn positions of generated license-bearing inputs, with the hyphen exemption applied per line (incl. multi-byte blanks). Found F22/F23 through its thorough tier (fixed). Bounded exploration.",
         "note": _V2NOTE,
         "technique": "metamorphic property-based testing (rapid)",
     },
     "C06": {
-        "level": "Metamorphic property testing: notice/date insertion, list markers, hyphen splits, spelling pairs and http/https at drawn positions; token ids and reported licenses must be unchanged and inserted notices reported on their line. Two genuine deviations are recorded as known findings (F13, F14) and excluded by construction so the search continues behind them. Bounded exploration.",
+        "level": "Metamorphic property testing: notice/date insertion, list markers, hyphen splits, spelling pairs and http/https at drawn positions; token ids and reported licenses must be unchanged and inserted notices reported on their line; a quarter of the small-corpus cases run on a classifier that has normalized the texts before (call history). Two genuine deviations are recorded as known findings (F13, F14) and excluded by construction so the search continues behind them. Bounded exploration.",
         "note": _V2NOTE + " Position restrictions use independent predicates written in the harness, not the tokenizer under test.",
         "technique": "metamorphic property-based testing (rapid) with known-finding classes excluded by construction",
     },
     "C07": {
-        "level": "Metamorphic property testing: thousands of (X, prefix, suffix) triples; Match(P+X+S) must equal Match(X) shifted, for exact, noisy, truncated and multi-license X; the premise is verified at token level so no case relies on hopeful construction. Bounded exploration.",
+        "level": "Metamorphic property testing: thousands of (X, prefix, suffix) triples; Match(P+X+S) must equal Match(X) shifted, for exact, noisy, truncated and multi-license X; a token-level difference of X in context is itself a violation. A second part sweeps the byte offset of every corpus document with non-ASCII letters over one read-buffer length. Found F22 (fixed). Bounded exploration.",
         "note": _V2NOTE,
         "technique": "metamorphic property-based testing (rapid)",
     },
     "C08": {
-        "level": "Differential testing with generated reader schedules, pads and injected faults, plus exhaustive sweeps (every pad 0..2056, every failure offset, chunk sizes around the 1024-byte buffer) on inputs with multi-byte runes every few bytes. Bounded exploration; exhaustive within the swept inputs.",
+        "level": "Differential testing with generated reader schedules, pads and injected faults, plus exhaustive sweeps (every pad 0..2056, every failure offset, chunk sizes around the 1024-byte buffer) on inputs with multi-byte runes every few bytes, words hyphenated over line breaks (ASCII and typographic hyphens) and cut-off multi-byte tails at lengths around the read chunk. Found F25 (fixed). Bounded exploration; exhaustive within the swept inputs.",
         "note": _V2NOTE,
         "technique": "differential property-based testing (rapid) + fault injection + exhaustive parameter sweeps",
     },
     "C10": {
-        "level": "Structure-aware generated-input search (rapid) in both tiers plus Go native coverage-guided fuzzing through four in-process targets in the thorough tier; the oracle (no panic, no hang, well-formed results) runs inside every target. Found the threshold-0 panic F3 (fixed). Bounded exploration; absence of crashes is never established.",
+        "level": "Structure-aware generated-input search (rapid) in both tiers plus Go native coverage-guided fuzzing through four in-process targets in the thorough tier; the oracle (no panic, no hang, well-formed results) runs inside every target. Corpus documents are also cut from the input itself (k words around the q-gram size). Found the threshold-0 panic F3 (fixed). Bounded exploration; absence of crashes is never established.",
         "note": "Public API only (external module with replace => /repo/v2). Panics are recovered and reported with the input; a hang is reported only when the in-flight case does not finish within 300 s alone. Native fuzzing cannot be pinned to a seed: its saved failing input is the reproducible unit.",
         "technique": "structure-aware property-based testing (rapid) + coverage-guided fuzzing (go test -fuzz)",
     },
     "C11": {
-        "level": "Round-trip / metamorphic testing over every embedded document, every scenario file and thousands of generated edited / decorated inputs. Found and repaired three Normalize line-alignment defects (F9, F10, F20); three further root causes are recorded as known findings (F11, F12, F19) with class predicates that exclude them by construction. Bounded exploration; exhaustive over the shipped corpus and scenarios.",
+        "level": "Round-trip / metamorphic testing over every embedded document, every scenario file and thousands of generated edited / decorated inputs, plus a byte-offset sweep of every document with non-ASCII letters. Found and repaired three Normalize line-alignment defects (F9, F10, F20); three further root causes are recorded as known findings (F11, F12, F19) with class predicates that exclude them by construction. Bounded exploration; exhaustive over the shipped corpus and scenarios.",
         "note": _V2NOTE + " The comparison maps Normalize's words through an independent copy of the spelling table.",
         "technique": "round-trip property-based testing (rapid) + exhaustive enumeration over corpus and scenario files",
     },
     "C12": {
-        "level": "Differential testing against a reference construction: generated directory trees x 13 spellings of the directory argument, LoadLicenses vs AddContent per file (keys, token sequences, Match results), and DefaultClassifier vs LoadLicenses(assets) over every embedded document and scenario. Found the path-handling defects F4 (fixed). Bounded exploration.",
+        "level": "Differential testing against a reference construction: generated directory trees x 13 spellings of the directory argument, LoadLicenses vs AddContent per file (keys, token sequences, Match results; names incl. blanks, non-ASCII and invalid UTF-8), and DefaultClassifier vs LoadLicenses(assets) over every embedded document and scenario. Found the path-handling defects F4 (fixed). Bounded exploration.",
         "note": _V2NOTE + " Trees live under the driver's scratch directory; relative spellings change the process working directory (cases run sequentially).",
         "technique": "differential property-based testing (rapid) with generated file-system trees",
     },
     "C09": {
-        "level": "Generated concurrent batches (2-64 goroutines, barrier start, mixed Match/MatchFrom, edited inputs that drive the diff library's half-match path) executed under the Go race detector, plus comparison of every concurrent result with a sequential reference. Found the shared-runes race F2 (fixed). The schedule is sampled, not owned; the race detector's happens-before analysis makes the verdict independent of the interleaving for the executed paths.",
+        "level": "Generated concurrent batches (2-64 goroutines, barrier start, mixed Match/MatchFrom, edited inputs that drive the diff library's half-match path) executed under the Go race detector, plus comparison of every concurrent result with a sequential reference; two thirds of the batches run on fresh (cold) classifiers, half of those with wildcard trace configurations and a tracer that does not synchronise. A batch whose workers are all blocked on a mutex is reported as a deadlock. Found the shared-runes race F2 (fixed). The schedule is sampled, not owned; the race detector's happens-before analysis makes the verdict independent of the interleaving for the executed paths.",
         "note": _V2NOTE + " Race reports need no confirmation (no false positives); the in-flight batch is saved as the replay.",
         "technique": "generated concurrent workloads under the race detector (invariant monitor) + differential comparison with a sequential reference",
     },
     "C13": {
-        "level": "Generated-input search with a constructive oracle: vocabularies with regular-expression metacharacters, Unicode and invalid UTF-8, known-value sets with unique tokens, normaliser lists and unknown strings built around planted copies; every verbatim copy must be reported with exact Offset / Extent / Confidence 1.0 and AddValue must accept every string. Found F5 (regular-expression compilation) and F17 (one-token values), both fixed. Bounded exploration.",
+        "level": "Generated-input search with a constructive oracle: vocabularies with regular-expression metacharacters, Unicode and invalid UTF-8, known-value sets with unique tokens, normaliser lists and unknown strings built around planted copies; every verbatim copy (also when glued to word characters, adjacent to another copy, or the whole string) must be reported with exact Offset / Extent / Confidence 1.0, NearestMatch offsets lie inside the input, and AddValue must accept every string. Found F5 (regular-expression compilation), F17 (one-token values) and F21 (adjacent copies), all fixed. Bounded exploration.",
         "note": "In-package harness (package stringclassifier). Panics on goroutines spawned by the library kill the process; the case in flight is written first and adopted by the driver.",
         "technique": "property-based testing (rapid) with a constructive oracle",
     },
     "C14": {
-        "level": "Generated concurrent workloads (barrier start on a fresh classifier so the lazily built search sets are created concurrently; mixes of MultipleMatch, NearestMatch, AddValue; License built from a precomputed archive) executed under the Go race detector, with every result compared with a sequential reference. Found the lazy search-set race F6 (fixed). Schedules are sampled.",
+        "level": "Generated concurrent workloads (barrier start on a fresh classifier so the lazily built search sets are created concurrently; mixes of MultipleMatch, NearestMatch, AddValue; License built from a precomputed archive) executed under the Go race detector, with every result compared with a sequential reference; contended AddValue of one key, texts of 0-3 words; a batch whose workers are all blocked on a mutex is reported as a deadlock. Found the lazy search-set race F6 (fixed). Schedules are sampled.",
         "note": "Built with -race. Texts are kept small so that go-diff's 1 s wall-clock deadline is never near.",
         "technique": "generated concurrent workloads under the race detector + differential comparison with a sequential reference",
     },
     "C15": {
-        "level": "Differential testing: for generated archives (real license files in drawn order plus synthetic ones served through the swapped ReadLicenseFile variable) the classifier loaded from ArchiveLicenses' output is compared with one built directly from the same normalised texts with fresh search sets, on generated queries (MultipleMatch in both header modes, NearestMatch with tie analysis). Bounded exploration.",
+        "level": "Differential testing: for generated archives (real license files in drawn order plus synthetic ones served through the swapped ReadLicenseFile variable) the classifier loaded from ArchiveLicenses' output is compared with one built directly from the same normalised texts (once with fresh precomputed search sets, once through plain AddValue), on generated queries incl. typo-ridden and filler-stuffed texts (MultipleMatch in both header modes, NearestMatch with tie analysis), optionally after a decoy archive with the same file names was loaded; every large license file and synthetic licenses beyond every shipped size are archived as well. Bounded exploration.",
         "note": "External test package in the repository root with a guarded in-package export helper (injected, not committed); the root package's own TestMain (needs licenses.db, not shipped) is hidden from the build through the overlay.",
         "technique": "differential property-based testing (rapid) of a serialisation round trip",
     },
     "C16": {
-        "level": "Exhaustive enumeration of every shipped license file x 9 presentation variants against a classifier built in process from the whole licenses/ directory (all in thorough; every file as is plus a rotating quarter of the variants in quick), plus generated threshold-bound cases for MultipleMatch. Exhaustive over the corpus, bounded otherwise.",
+        "level": "Exhaustive enumeration of every shipped license file x 9 presentation variants against a classifier built in process from the whole licenses/ directory (all in thorough; every file as is plus a rotating quarter of the variants in quick), plus generated threshold-bound cases for MultipleMatch (also with the Threshold field changed after construction). Exhaustive over the corpus, bounded otherwise.",
         "note": "The archive is built in process with serializer.ArchiveLicenses because licenses.db is not part of the repository.",
         "technique": "exhaustive enumeration over the corpus x variants + property-based testing (rapid) of the threshold bound",
     },
@@ -278,17 +278,17 @@ MANIFEST_TEXT = {
         "technique": "property-based testing (rapid) with validity-predicate oracles",
     },
     "C18": {
-        "level": "Reference-model testing, exhaustive in small scope: every string of up to 5 (quick) / 7 (thorough) atoms over delimiter-rich alphabets for 19 style configurations and every language at a smaller bound, plus generated long programs, compared with a reference lexer written from the exported language tables; ChunkIterator is checked for exactly-once, order and grouping. Found and repaired two lexer defects (F15, F16); after the repair the implementation and the reference agree on all enumerated strings.",
+        "level": "Reference-model testing, exhaustive in small scope: every string of up to 5 (quick) / 8 (thorough) atoms over delimiter-rich alphabets for 19 style configurations and every language at a smaller bound (also next to look-alike runes whose code point has a delimiter byte as low byte), plus generated long programs, compared with a reference lexer written from the exported language tables; ChunkIterator is checked for exactly-once, order and grouping. Found and repaired two lexer defects (F15, F16); after the repair the implementation and the reference agree on all enumerated strings.",
         "note": "In-package harness (package commentparser). The reference asserts nothing after an unterminated string / multi-line comment.",
         "technique": "exhaustive small-scope enumeration + property-based testing (rapid) against a reference model",
     },
     "C19": {
-        "level": "Differential testing of the built binary and of the backend against the library: generated file sets, argument shapes and flag combinations; stdout multiset, exit status, JSON classifications and Text are compared with in-process Match results. Found the 64 KiB line defect F8 (fixed). Bounded exploration; the -tasks fan-out is additionally run under -race in the thorough tier.",
+        "level": "Differential testing of the built binary and of the backend against the library: generated file sets, argument shapes and flag combinations; stdout multiset, exit status, JSON classifications and Text are compared with in-process Match results. File sets include duplicates, two-header files, CRLF / binary / empty files and symbolic links. Found the 64 KiB line defect F8 and the send-on-closed-channel crash F24 (both fixed). Bounded exploration; the -tasks fan-out is additionally run under -race in the thorough tier.",
         "note": "The CLI is built from /repo's working tree by the driver into its scratch directory. Expected results use assets.DefaultClassifier() in the test process. File names contain no blanks.",
         "technique": "differential property-based testing (rapid) of the CLI binary against the library",
     },
     "C20": {
-        "level": "Model-based property testing: thousands of generated operation sequences per container are interpreted against reference models (map / list) with the full invariant checked after every step, plus exhaustive enumeration of all subset pairs x binary operations and of all short action sequences. Bounded exploration, not proof; exhaustive within the enumerated scopes.",
+        "level": "Model-based property testing: thousands of generated operation sequences per container are interpreted against reference models (map / list) with the full invariant checked after every step (queues also grow to thousands of items and are drained in runs), plus exhaustive enumeration of all subset pairs x binary operations and of all short action sequences. Bounded exploration, not proof; exhaustive within the enumerated scopes.",
         "note": "Trusts the reference models written in the harness and Go's map/sort. Nil receivers only where documented. Aliasing is detected by an immediate sentinel probe and by the per-step invariant.",
         "technique": "stateful property-based testing against a reference model (rapid) + exhaustive small-scope enumeration",
     },
